@@ -72,6 +72,12 @@ def build(variant="plain", targets=("cppcheck",), quiet=True):
             raise SystemExit(2)
         if not quiet:
             print("built %s in %.1fs" % (variant, time.time() - t0))
+        try:        # building is not exploring: give the time back to every running check's budget
+            from . import core
+            for c in core._LIVE:
+                c.deadline += time.time() - t0
+        except Exception:
+            pass
         return cppcheck(variant)
     finally:
         fcntl.flock(lock, fcntl.LOCK_UN)
